@@ -107,7 +107,10 @@ def build_system(case):
         phys, bond = choose_dims(rng, par)
     if isinstance(bond, dict):
         bond = {int(k): v for k, v in bond.items()}
-    ttns = util.build_ttns(rng, par, phys=phys, bond=bond)
+    # every fourth system (by seed) starts from an all-REAL state (float64 tensors, as the product-state
+    # constructors produce): the evolved tensors are complex, so the dtype has to change on the first update
+    real_state = case.get("real", case["seed"] % 4 == 1)
+    ttns = util.build_ttns(rng, par, phys=phys, bond=bond, complex_=not real_state)
     ids = sorted(ttns.nodes)
     dims = util.phys_dims(ttns)
     nterms = case.get("nterms", 3)
@@ -127,7 +130,8 @@ def build_system(case):
     nrm = float(np.linalg.norm(H, 2))
     dt = 2.0 ** math.floor(math.log2(1.0 / nrm)) if nrm > 0 else DT
     dt = min(max(dt, 2.0 ** -24), 0.25) * case.get("dtscale", 1)
-    return {"dt": dt, "ttns": ttns, "ham": ham, "ttno": ttno, "ids": ids, "dims": dims, "H": H, "ref": ref, "phys": phys}
+    return {"dt": dt, "ttns": ttns, "ham": ham, "ttno": ttno, "ids": ids, "dims": dims, "H": H, "ref": ref, "phys": phys,
+            "builder": bool(case.get("builder"))}
 
 
 def rtree_json(ttn):
@@ -275,7 +279,7 @@ class Recorder:
             self.log.append(("two", nid(a), nid(b), f))
         else:
             self.log.append(("site", nid(x), f))
-        # ---- C05W hook: sampled snapshots of (state, TTNO, H_eff) for the diagram-level tie of Contr/Heff.v ----
+        # ---- C05W hook: sampled snapshots of (state, TTNO, H_eff) for the diagram-level tie of Contr/Heff.v / Heff2.v (site, link, two-site) ----
         if self.capture_w:
             from props import c05w
             c05w.capture(self, algo, cp, x, heff)
@@ -376,7 +380,8 @@ class Recorder:
 
 def make_algo(kind, sysd, mode=None, svd=None, dt=None, nsteps=1):
     dt = sysd.get("dt", DT) if dt is None else dt
-    return util.make_evolution(kind, sysd["ttns"], sysd["ham"], sysd["ttno"], dt, dt * nsteps, [], mode=mode, svd=svd)
+    return util.make_evolution(kind, sysd["ttns"], sysd["ham"], sysd["ttno"], dt, dt * nsteps, [], mode=mode, svd=svd,
+                               builder=bool(sysd.get("builder")))
 
 
 def record_run(kind, sysd, nsteps, check_heff=False, mode=None, svd=None, after_step=None, capture_w=0, wseed=0):
@@ -650,14 +655,26 @@ class C05(Prop):
               "and independent neighbour orders _get_effective_link_hamiltonian built from fresh blocks is the complete network of both sides of the "
               "edge, the operator wire of the edge bound, rows = conjugate copies of the link tensor's legs, columns = the link tensor's legs, in the "
               "link tensor's own leg order (parent side first), whichever end is the parent"),
+        ("F", "TWO-SITE updates, diagram level (Contr/Heff2.v, C05_heff_two_diagram / C05_heff_two_checked / C05_heff_two_legs): the state AFTER "
+              "contract_nodes(target a, next b) holds the two-site node l (what _determine_two_site_leg_permutation reads), the TTNO still has a and b "
+              "(wf_twosite: heterogeneous neighbour lists at every neighbour of the pair, independent neighbour orders, ANY order of l's neighbours); "
+              "for every tree, every adjacent pair and either parentage, contract_all_but_one_neighbour_block_to_hamiltonian on both TTNO tensors with "
+              "fresh blocks + tensordot over the TTNO bond + the leg permutation succeeds and yields exactly the <psi|H|psi> network with the two ket "
+              "atoms of the pair and their conjugate twins removed: the operator bond a-b and the operator wires to the pair's neighbours bound, every "
+              "edge not incident to the pair bound in all three layers, ket / conjugate wires to the pair's neighbours open; rows = (conjugate legs to "
+              "l's neighbours in l's own order, output leg of a, output leg of b), columns = (ket legs in the same order, input leg of a, input leg of "
+              "b) = the leg order of the two-site tensor (its open legs are a's then b's: C02_contract_open_rule)"),
+        ("I", "per sampled TWO-SITE call (about 3 per tdvp2s case): state (with the two-site node) and TTNO rebuilt as store programmes, all build "
+              "operations accepted, hypothesis checker wf_twositeb (C05_heff_two_checked) and result checker heff_two_ok (C05_heff_two_ok_sound) by "
+              "vm_compute"),
         ("I", "per sampled SITE call (about 3 per case) and LINK call (1-2 per case): the state and the TTNO are rebuilt as store programmes from "
               "their current structure; all build operations accepted; hypothesis checkers wf_heffb / wf_linkb (C05_heff_site_checked, "
               "C05_heff_link_checked) and, as a cross-check, result checkers heff_ok / link_ok (C05_heff_ok_sound, C05_link_ok_sound) by vm_compute"),
         ("V", "value tie of the diagram level: einsum of the model diagram (fresh blocks) on the captured tensors equals the matrix handed to "
-              "time_evolve, 1e-9 relative, for the sampled site and link calls (detects stale cache blocks, wrong leg permutations, swapped sides)"),
+              "time_evolve, 1e-9 relative, for the sampled site, link and two-site calls (detects stale cache blocks, wrong leg permutations, "
+              "swapped sides / swapped physical legs of the pair)"),
         ("V", "H_eff handed to time_evolve equals E^dagger H E (dense operator, embedding by differentiating the current dense state): "
-              "numerical oracle, relative tolerance 1e-9, at every call of every step (site, link and two-site; the two-site effective Hamiltonian "
-              "is not modelled at the diagram level)"),
+              "numerical oracle, relative tolerance 1e-9, at every call of every step (site, link and two-site)"),
     ]
     trusted_base = ["NumPy einsum/kron for the dense reference E^dagger H E (independent of the library's contraction code)",
                     "diagram level: NumPy tensordot/transpose implement g_tensordot/g_transpose of Contr/Heff.v (validated by the value tie); "
@@ -695,7 +712,7 @@ class C05(Prop):
         return [SkipCase(o["skip"]) if "skip" in o else o for o in obs]
 
     def model(self, ctx, cases, obs):
-        # ---- C05W hook: diagram-level obligations and value tie on the sampled site / link calls ----
+        # ---- C05W hook: diagram-level obligations and value tie on the sampled site / link / two-site calls ----
         from props import c05w
         try:
             self._w = c05w.run(ctx, cases, obs)
